@@ -2,8 +2,10 @@ package gomatrixserverlib
 
 import (
 	"encoding/json"
+	"strings"
 
 	"github.com/matrix-org/gomatrixserverlib/spec"
+	"github.com/tidwall/gjson"
 )
 
 // For satisfying "Upon receipt of a redaction event, the server must strip off any keys not in the following list:"
@@ -152,7 +154,52 @@ type unredactableEvent interface {
 	SetContent(map[string]interface{})
 }
 
+// protectedTopLevelKeys are the top-level keys that some redaction algorithm keeps.
+var protectedTopLevelKeys = []string{
+	"event_id", "type", "room_id", "sender", "state_key", "content", "hashes", "signatures", "depth",
+	"prev_events", "prev_state", "auth_events", "origin", "origin_server_ts", "membership",
+}
+
+// isCaseVariantOfProtectedKey reports whether name differs from a protected top-level key only
+// in letter case. encoding/json would store such a member in the protected key's struct field.
+func isCaseVariantOfProtectedKey(name string) bool {
+	for _, key := range protectedTopLevelKeys {
+		if name != key && strings.EqualFold(name, key) {
+			return true
+		}
+	}
+	return false
+}
+
+// dropCaseVariantsOfProtectedKeys removes the top-level members whose names differ from a
+// protected key only in letter case: they are extra fields like any other.
+func dropCaseVariantsOfProtectedKeys(eventJSON []byte) ([]byte, error) {
+	found := false
+	gjson.ParseBytes(eventJSON).ForEach(func(key, _ gjson.Result) bool {
+		found = isCaseVariantOfProtectedKey(key.String())
+		return !found
+	})
+	if !found {
+		return eventJSON, nil
+	}
+	var members map[string]json.RawMessage
+	if err := json.Unmarshal(eventJSON, &members); err != nil {
+		return nil, err
+	}
+	for name := range members {
+		if isCaseVariantOfProtectedKey(name) {
+			delete(members, name)
+		}
+	}
+	return json.Marshal(members)
+}
+
 func redactEventJSON[T unredactableEvent](eventJSON []byte, unredactableEvent T, eventTypeToKeepContentFields map[string][]string, eventTypeToKeepNestedContentFields map[string]map[string][]string) ([]byte, error) {
+	// encoding/json matches member names to struct fields without regard to letter case.
+	eventJSON, err := dropCaseVariantsOfProtectedKeys(eventJSON)
+	if err != nil {
+		return nil, err
+	}
 	// Unmarshalling into a struct will discard any extra fields from the event.
 	// unredactableEvent is a pointer already: passing its address would let the
 	// JSON value null set it to nil.
